@@ -15,16 +15,33 @@ Local Open Scope list_scope.
 (** ** The full statement (false of the code as it is; kept visible)
 
     "For every scalar node the YAML library hands to pint, the positions computed from the line table spell the
-    node's value."  [C06_full_statement] is what the property asks for; the [_refuted] theorems below show
-    seven layout classes where the faithful model (and the real code, corpus/C06/*.yml) violates it. *)
+    node's value."  [C06_full_statement] is what the property asks for.  Since the fix commits 660d1e1, 6c7f5de,
+    9af0d98, 69b377d, d1959ae ONE layout class is left where the faithful model (and the real code,
+    corpus/C06/dq_escape.yml) violates it: double-quoted scalars with an escape that hides the byte
+    ([C06_refuted_dq_escape]).  The seven former classes are now positive statements ([..._fixed]). *)
 Definition C06_full_statement : Prop :=
   forall lines n minCol pos,
     sn_value n <> EmptyString ->
     new_position_range lines n minCol = Ok pos ->
     spells lines pos (sn_value n).
 
-(** ** Partial theorem, general form: under the guard [node_ok] (Appendix C of DESIGN.md, conditions g1-g5,
-    executable, evaluated by the check on every generated field that lies outside the known-finding classes)
+(** ** UNCONDITIONAL soundness (new with fix 6c7f5de: a line break only gets a position when it stands for a byte
+    of the value): for EVERY line table, node and minColumn — any layout, any style, also the remaining finding
+    class — a call that returns either found nothing (the one-column fallback of fix 75918ac) or returns positions
+    that are well formed, inside the file and read back, in order and up to line folding, a PREFIX of the value.
+    So a diagnostic offset never lands on a byte that is not the corresponding byte of the value; what can still
+    go wrong is only that the scan does not get to the end (completeness, next theorem). *)
+Theorem C06_positions_spell_prefix : forall lines n minCol pos,
+  new_position_range lines n minCol = Ok pos ->
+  pos = fallback n \/
+  (wf pos /\ exists rb done_ left_,
+      read_back lines pos = Some rb /\ fold_eq rb done_ = true /\ sn_value n = (done_ ++ left_)%string).
+Proof. exact positions_spell_prefix. Qed.
+Print Assumptions C06_positions_spell_prefix.
+
+(** ** Partial theorem, general form: under the guard [node_ok] (Model/Layout.v: every line's scan finds its
+    segment — what is left of Appendix C after the fixes is g1 and "the value is not made of line breaks only";
+    executable, evaluated by the check on every generated field outside the known-finding class)
     the call does not panic, the positions are non-empty, well formed, inside the file and spell the value. *)
 Theorem C06_spell_guarded_partial : forall lines n minCol,
   node_ok lines n minCol = true ->
@@ -66,10 +83,11 @@ Print Assumptions C06_spell_double_noescape.
 
 
 (** ** Block scalars.  [block_ok literal b minCol] is the executable guard on the layout record [b]
-    (Model/Layout.v): the header starts with the indicator and does not contain the first byte of the value
-    (g4), the first content line is not blank and does not start with a blank, the content is indented by at
-    least [minCol - 1] columns (g1; [minCol] = key column + 2), blank lines occur only inside literal blocks,
-    folded bodies do not start with a blank, and no later line of the file contains a line-break byte. *)
+    (Model/Layout.v): the header line is ARBITRARY (indicators, comment, anything: since fix 660d1e1 the scan starts
+    on the next line), the first content line is not blank (it may start with blanks: explicit indentation
+    indicator), the content is indented by at least [minCol - 1] columns (g1; the parser passes [minCol] = 1 since
+    fix d1959ae, so this always holds there), blank lines occur only inside literal blocks, folded bodies do not
+    start with a blank, and no later line of the file contains a line-break byte. *)
 Theorem C06_spell_literal : forall b minCol,
   block_ok true b minCol = true ->
   exists pos, new_position_range (bl_lines b) (bl_node true b) minCol = Ok pos /\ pos <> [] /\
@@ -176,9 +194,11 @@ Print Assumptions C06_lines_of_encloses.
 
 (** ** Shift-equivariance (also used by C19): inserting [pre] lines above and prefixing every line with [p]
     shifts the positions by (|pre|, |p|) — provided no line is empty unless [p] is (an empty line is skipped
-    by the scan, the same line made of blanks is not). *)
+    by the scan, the same line made of blanks is not), [p] is ASCII (yaml columns count characters), the node
+    has no anchor and a column >= 1. *)
 Theorem C06_shift_equivariance : forall pre p lines n minCol pos,
   (p = EmptyString \/ Forall (fun l => l <> EmptyString) lines) ->
+  ascii_only p = true -> sn_anchor n = EmptyString -> 1 <= sn_col n ->
   new_position_range lines n minCol = Ok pos ->
   new_position_range (shift_lines pre p lines) (shift_node (Z.of_nat (List.length pre)) (slen p) n) (minCol + slen p)
   = Ok (add_offset (Z.of_nat (List.length pre)) (slen p) pos).
@@ -238,133 +258,130 @@ Print Assumptions C06_plain_end_to_end.
 
 
 
-(** ** Refutations of the full statement: witnesses evaluated on the model by [vm_compute]; the same inputs
-    are corpus/C06/*.yml, run through the real parser on every check (the observed positions are compared
-    with the model by the correspondence, and the failure is counted under its known-finding id). *)
+(** ** The remaining refutation of the full statement, and the seven former ones turned positive.  Witnesses are
+    evaluated on the model by [vm_compute]; the same inputs are corpus/C06/*.yml, run through the real parser on
+    every check (the observed positions are compared with the model by the correspondence; the oracle requires the
+    former witnesses to spell and counts the dq-escape one under its known-finding id).  [minColumn] = 1 is what
+    the parser passes. *)
 
 Definition tab : string := String (ascii_of_N 9) EmptyString.
 Definition nl : string := String (ascii_of_N 10) EmptyString.
 
-(** [- alert: "a\tb"]: the tab byte never occurs in the source, the scan runs through the following lines. *)
+(** [- alert: "a\tb"]: the tab byte never occurs in the source, the scan runs through the following lines and
+    finds the [b] of [alert: Next] on line 3. *)
 Definition w_dq_lines : list string :=
   ["- alert: ""a\tb"""; "  expr: up == 0"; "- alert: Next"; "  expr: up == 1"]%string.
-Definition w_dq_node : snode := mksn ("a" ++ tab ++ "b")%string 1 10.
+Definition w_dq_node : snode := mksn0 ("a" ++ tab ++ "b")%string 1 10.
 
 Theorem C06_refuted_dq_escape :
-  exists pos, new_position_range w_dq_lines w_dq_node 5 = Ok pos /\
+  exists pos, new_position_range w_dq_lines w_dq_node 1 = Ok pos /\
               spells_b w_dq_lines pos (sn_value w_dq_node) = false /\
-              snd (lines_of pos) = 3 (* reaches into the next rule, which starts on line 3 *).
+              pos = [mkp 1 11 11].
 Proof. eexists. split; [vm_compute; reflexivity|]. split; vm_compute; reflexivity. Qed.
 Print Assumptions C06_refuted_dq_escape.
 
-(** folded block with a blank line: two line-break positions for one value byte. *)
+(** folded block with a blank line (fixed by 6c7f5de): the break of the blank line gets no position. *)
 Definition w_fb_lines : list string :=
   ["- alert: Foo"; "  expr: up == 0"; "  annotations:"; "    summary: >-"; "      first line"; ""; "      second"]%string.
-Definition w_fb_node : snode := mksn ("first line" ++ nl ++ "second")%string 4 14.
+Definition w_fb_node : snode := mksn ("first line" ++ nl ++ "second")%string 4 14 true EmptyString.
 
-Theorem C06_refuted_folded_blank :
-  exists pos, new_position_range w_fb_lines w_fb_node 7 = Ok pos /\
-              spells_b w_fb_lines pos (sn_value w_fb_node) = false.
-Proof. eexists. split; vm_compute; reflexivity. Qed.
-Print Assumptions C06_refuted_folded_blank.
+Example C06_folded_blank_fixed :
+  new_position_range w_fb_lines w_fb_node 1 = Ok [mkp 5 7 17; mkp 7 7 12] /\
+  spells_b w_fb_lines [mkp 5 7 17; mkp 7 7 12] (sn_value w_fb_node) = true.
+Proof. split; vm_compute; reflexivity. Qed.
+Print Assumptions C06_folded_blank_fixed.
 
-(** block header: [expr: | # up] starts matching inside the comment (positions begin on the header line 2,
-    the content is on line 3); [expr: |-] followed by [-1 * foo] matches the chomping indicator. *)
+(** block header (fixed by 660d1e1): [expr: | # up] no longer matches inside the comment, [expr: |-] followed by
+    [-1 * foo] no longer matches the chomping indicator. *)
 Definition w_bh_lines : list string :=
   ["- alert: Foo"; "  expr: | # up"; "    up == 0"; "- alert: Bar"; "  expr: |-"; "    -1 * foo"]%string.
 
-Theorem C06_refuted_block_header :
-  (exists pos, new_position_range w_bh_lines (mksn ("up == 0" ++ nl)%string 2 9) 5 = Ok pos /\
-               fst (lines_of pos) = 2) /\
-  (exists pos, new_position_range w_bh_lines (mksn "-1 * foo"%string 5 9) 5 = Ok pos /\
-               spells_b w_bh_lines pos "-1 * foo"%string = false).
-Proof. split; eexists; split; vm_compute; reflexivity. Qed.
-Print Assumptions C06_refuted_block_header.
+Example C06_block_header_fixed :
+  new_position_range w_bh_lines (mksn ("up == 0" ++ nl)%string 2 9 true EmptyString) 1 = Ok [mkp 3 5 11] /\
+  new_position_range w_bh_lines (mksn "-1 * foo"%string 5 9 true EmptyString) 1 = Ok [mkp 6 5 12].
+Proof. split; vm_compute; reflexivity. Qed.
+Print Assumptions C06_block_header_fixed.
 
-(** content / continuation indented by one column relative to the key: the scan starts one byte late and
-    runs into the next rule (line 5-6). *)
+(** content / continuation indented by one column relative to the key (fixed by d1959ae: minColumn = 1). *)
 Definition w_si_lines : list string :=
   ["- alert: Foo"; "  expr: |"; "   up == 0"; "- alert: Bar"; "  expr: up"; "   == 0"]%string.
 
-Theorem C06_refuted_shallow_indent :
-  (exists pos, new_position_range w_si_lines (mksn ("up == 0" ++ nl)%string 2 9) 5 = Ok pos /\
-               spells_b w_si_lines pos ("up == 0" ++ nl)%string = false /\ fst (lines_of pos) = 5) /\
-  (exists pos, new_position_range w_si_lines (mksn "up == 0"%string 5 9) 5 = Ok pos /\
-               spells_b w_si_lines pos "up == 0"%string = false).
-Proof. split; eexists; repeat split; vm_compute; reflexivity. Qed.
-Print Assumptions C06_refuted_shallow_indent.
+Example C06_shallow_indent_fixed :
+  new_position_range w_si_lines (mksn ("up == 0" ++ nl)%string 2 9 true EmptyString) 1 = Ok [mkp 3 4 10] /\
+  new_position_range w_si_lines (mksn0 "up == 0"%string 5 9) 1 = Ok [mkp 5 9 11; mkp 6 4 7] /\
+  spells_b w_si_lines [mkp 5 9 11; mkp 6 4 7] "up == 0"%string = true.
+Proof. repeat split; vm_compute; reflexivity. Qed.
+Print Assumptions C06_shallow_indent_fixed.
 
-(** trailing blanks on a continued line of a multi-line quoted scalar: matched, and the line break is still
-    appended. *)
+(** trailing blanks on a continued line of a multi-line quoted scalar (fixed by 6c7f5de). *)
 Definition w_ts_lines : list string := ["- alert: Foo"; "  expr: 'up  "; "    == 0'"]%string.
 
-Theorem C06_refuted_continued_trailing_space :
-  exists pos, new_position_range w_ts_lines (mksn "up == 0"%string 2 9) 5 = Ok pos /\
-              spells_b w_ts_lines pos "up == 0"%string = false.
-Proof. eexists. split; vm_compute; reflexivity. Qed.
-Print Assumptions C06_refuted_continued_trailing_space.
+Example C06_continued_trailing_space_fixed :
+  new_position_range w_ts_lines (mksn0 "up == 0"%string 2 9) 1 = Ok [mkp 2 10 12; mkp 3 5 8] /\
+  spells_b w_ts_lines [mkp 2 10 12; mkp 3 5 8] "up == 0"%string = true.
+Proof. split; vm_compute; reflexivity. Qed.
+Print Assumptions C06_continued_trailing_space_fixed.
 
-(** block scalar whose value starts with a line break: the break is consumed on the header line before
-    anything matched and never gets a position. *)
+(** block scalar whose value starts with a line break (fixed by 660d1e1 + 6c7f5de): the break of the blank first
+    content line is consumed there and gets its position. *)
 Definition w_lb_lines : list string :=
   ["- alert: Foo"; "  expr: up == 0"; "  annotations:"; "    summary: |"; ""; "      text"]%string.
 
-Theorem C06_refuted_block_leading_blank :
-  exists pos, new_position_range w_lb_lines (mksn (nl ++ "text" ++ nl)%string 4 14) 7 = Ok pos /\
-              spells_b w_lb_lines pos (nl ++ "text" ++ nl)%string = false.
-Proof. eexists. split; vm_compute; reflexivity. Qed.
-Print Assumptions C06_refuted_block_leading_blank.
+Example C06_block_leading_blank_fixed :
+  new_position_range w_lb_lines (mksn (nl ++ "text" ++ nl)%string 4 14 true EmptyString) 1 = Ok [mkp 5 1 1; mkp 6 7 10] /\
+  spells_b w_lb_lines [mkp 5 1 1; mkp 6 7 10] (nl ++ "text" ++ nl)%string = true.
+Proof. split; vm_compute; reflexivity. Qed.
+Print Assumptions C06_block_leading_blank_fixed.
 
-(** yaml.v3 counts columns in characters, [NewPositionRange] indexes bytes: after four 3-byte arrows the
-    node of [b]'s value [x] is reported at column 28 while the byte [x] sits at byte column 36; the scan
-    starts at byte 28 and lands on the [x] inside [a]'s value (byte 29). *)
+(** yaml.v3 counts columns in characters (fixed by 9af0d98: [byteColumn]): after four 3-byte arrows the node of
+    [b]'s value [x] is reported at column 28 while the byte [x] sits at byte column 36. *)
 Definition w_mb_line : string :=
   ("  labels: {a: """ ++ bs [226;134;146;226;134;146;226;134;146;226;134;146]%N ++ " x"", b: x}")%string.
 Definition w_mb_lines : list string := ["- alert: Foo"; "  expr: up == 0"; w_mb_line]%string.
 
-Theorem C06_refuted_multibyte_prefix :
+Example C06_multibyte_prefix_fixed :
   String.get 35 w_mb_line = Some "x"%char /\ String.get 28 w_mb_line = Some "x"%char /\
-  new_position_range w_mb_lines (mksn "x"%string 3 28) 5 = Ok [mkp 3 29 29].
+  new_position_range w_mb_lines (mksn0 "x"%string 3 28) 1 = Ok [mkp 3 36 36].
 Proof. repeat split; vm_compute; reflexivity. Qed.
-Print Assumptions C06_refuted_multibyte_prefix.
+Print Assumptions C06_multibyte_prefix_fixed.
 
-(** anchored scalar: yaml.v3 reports the node at the [&] (column 9), the value [up == 0] starts at column 13; the
-    scan matches [u], [p] and the blank inside / after the anchor name (columns 10-12). *)
-Theorem C06_refuted_anchor_prefix :
-  new_position_range ["- alert: Foo"; "  expr: &up up == 0"]%string (mksn "up == 0"%string 2 9) 5
-  = Ok [mkp 2 10 12; mkp 2 16 19].
+(** anchored scalar (fixed by 69b377d): yaml.v3 reports the node at the [&] (column 9), the value [up == 0] starts
+    at column 13. *)
+Example C06_anchor_prefix_fixed :
+  new_position_range ["- alert: Foo"; "  expr: &up up == 0"]%string (mksn "up == 0"%string 2 9 false "up"%string) 1
+  = Ok [mkp 2 13 19].
 Proof. vm_compute. reflexivity. Qed.
-Print Assumptions C06_refuted_anchor_prefix.
+Print Assumptions C06_anchor_prefix_fixed.
 
-(** The full statement is false. *)
+(** The full statement is still false (one class left). *)
 Theorem C06_full_statement_refuted : ~ C06_full_statement.
 Proof.
-  intros H. destruct C06_refuted_folded_blank as [pos [H1 H2]].
-  specialize (H w_fb_lines w_fb_node 7 pos ltac:(discriminate) H1).
+  intros H. destruct C06_refuted_dq_escape as [pos [H1 [H2 _]]].
+  specialize (H w_dq_lines w_dq_node 1 pos ltac:(discriminate) H1).
   destruct H as [rb [Hrb Hsp]]. unfold spells_b in H2. rewrite Hrb in H2. congruence.
 Qed.
 Print Assumptions C06_full_statement_refuted.
 
 (** Non-vacuity: the premises of the partial theorems are satisfiable, on a typical rule. *)
 Example C06_nonvacuous :
-  node_ok ["- alert: Foo"; "  expr: up == 0  # comment"]%string (mksn "up == 0"%string 2 9) 5 = true /\
-  Lay1 Plain ["- alert: Foo"; "  expr: up == 0  # comment"]%string (mksn "up == 0"%string 2 9) /\
-  Lay1 SingleQuoted ["- alert: 'it''s'"]%string (mksn "it's"%string 1 10) /\
-  Lay1 DoubleQuotedSimple ["  summary: ""say \""hi\"""""]%string (mksn "say ""hi"""%string 1 12).
+  node_ok ["- alert: Foo"; "  expr: up == 0  # comment"]%string (mksn0 "up == 0"%string 2 9) 1 = true /\
+  Lay1 Plain ["- alert: Foo"; "  expr: up == 0  # comment"]%string (mksn0 "up == 0"%string 2 9) /\
+  Lay1 SingleQuoted ["- alert: 'it''s'"]%string (mksn0 "it's"%string 1 10) /\
+  Lay1 DoubleQuotedSimple ["  summary: ""say \""hi\"""""]%string (mksn0 "say ""hi"""%string 1 12).
 Proof.
   split; [vm_compute; reflexivity|]. split; [|split].
-  - split; [discriminate|]. split; [|reflexivity].
+  - split; [discriminate|]. repeat (split; [reflexivity|]). split; [|reflexivity].
     exists "  expr: up == 0  # comment"%string, "  expr: "%string, "  # comment"%string. repeat split.
-  - split; [discriminate|]. split; [|discriminate].
+  - split; [discriminate|]. repeat (split; [reflexivity|]). split; [|discriminate].
     exists "- alert: 'it''s'"%string, "- alert: "%string, ""%string. repeat split.
-  - split; [discriminate|]. split; [|discriminate].
+  - split; [discriminate|]. repeat (split; [reflexivity|]). split; [|discriminate].
     exists "  summary: ""say \""hi\"""""%string, "  summary: "%string, ""%string. repeat split.
 Qed.
 Print Assumptions C06_nonvacuous.
 
 Definition ex_literal : block_layout :=
-  {| bl_pre := ["- alert: Foo"]%string; bl_keyline_pre := "  expr: "%string; bl_header := "|-  # comment"%string;
-     bl_indent := 4; bl_first := "sum(foo)"%string;
+  {| bl_pre := ["- alert: Foo"]%string; bl_keyline_pre := "  expr: "%string; bl_header := "|-  # sum(foo)"%string;
+     bl_indent := 3; bl_first := "sum(foo)"%string;
      bl_items := [Body "  by (job)"%string; Blank 0; Body "> 0"%string]; bl_tail := 0;
      bl_after := ["  for: 5m"]%string |}.
 Definition ex_folded : block_layout :=
@@ -373,16 +390,16 @@ Definition ex_folded : block_layout :=
      bl_after := [] |}.
 Definition ex_plain_ml : plain_ml_layout :=
   {| pm_pre := ["- alert: Foo"]%string; pm_keyline_pre := "  expr: "%string; pm_first := "sum(foo)"%string;
-     pm_more := [(6%nat, "by (job)"%string); (4%nat, "> 0"%string)]; pm_after := ["  for: 5m"]%string |}.
+     pm_more := [(6%nat, "by (job)"%string); (3%nat, "> 0"%string)]; pm_after := ["  for: 5m"]%string |}.
 
 Definition ex_quoted_ml : flow_ml_layout :=
   {| fm_pre := ["- alert: Foo"]%string; fm_keyline_pre := "  expr: "%string; fm_open := "'"%string;
-     fm_first := "sum(foo{job=""a""})"%string; fm_mid := [(6%nat, "by (job)"%string)]; fm_last := (4%nat, "> 0"%string);
+     fm_first := "sum(foo{job=""a""})"%string; fm_mid := [(6%nat, "by (job)"%string)]; fm_last := (0%nat, "> 0"%string);
      fm_trailer := "'  # comment"%string; fm_after := ["  for: 5m"]%string |}.
 
 Example C06_nonvacuous_blocks :
-  fm_ok ex_quoted_ml 5 = true /\ fm_value ex_quoted_ml = "sum(foo{job=""a""}) by (job) > 0"%string /\
-  block_ok true ex_literal 5 = true /\ block_ok false ex_folded 7 = true /\ pm_ok ex_plain_ml 5 = true /\
+  fm_ok ex_quoted_ml 1 = true /\ fm_value ex_quoted_ml = "sum(foo{job=""a""}) by (job) > 0"%string /\
+  block_ok true ex_literal 1 = true /\ block_ok false ex_folded 1 = true /\ pm_ok ex_plain_ml 1 = true /\
   bl_value true ex_literal = ("sum(foo)" ++ nl ++ "  by (job)" ++ nl ++ nl ++ "> 0")%string /\
   bl_value false ex_folded = ("first line second" ++ nl)%string /\
   pm_value ex_plain_ml = "sum(foo) by (job) > 0"%string /\
